@@ -96,6 +96,13 @@ fn candidates(spec: &RunSpec) -> Vec<RunSpec> {
             c.push(s);
         }
     }
+    for i in 0..spec.fifos.len() {
+        for cand in text_candidates(&spec.fifos[i].1) {
+            let mut s = spec.clone();
+            s.fifos[i].1 = cand;
+            c.push(s);
+        }
+    }
     for i in 0..spec.dirs.len() {
         let mut s = spec.clone();
         s.dirs.remove(i);
